@@ -21,6 +21,8 @@ type FuncResult struct {
 	Abstracted []string
 	Inlined    []string
 	Trusted    []string
+	Used       []string // contracts applied (full keys)
+	Dep        bool     // verified because a function of the property depends on its contract
 	Secs       float64
 	Exits      int
 }
@@ -29,7 +31,7 @@ func osEnviron() []string { return os.Environ() }
 
 func (w *World) newExec(fn *ssa.Function, fc *FuncContract) *Exec {
 	x := &Exec{w: w, fn: fn, fnKey: funcKey(fn), fc: fc, interior: map[string]bool{}, nameCnt: map[string]int{}, maxPaths: 4096,
-		abstracted: map[string]bool{}, inlined: map[string]bool{}, trustedUsed: map[string]bool{}, callOrd: map[string]int{}, atcallUsed: map[string]bool{}}
+		abstracted: map[string]bool{}, inlined: map[string]bool{}, trustedUsed: map[string]bool{}, usedKeys: map[string]bool{}, callOrd: map[string]int{}, atcallUsed: map[string]bool{}}
 	return x
 }
 
@@ -259,6 +261,10 @@ func (w *World) verifyFunc(fn *ssa.Function, fc *FuncContract, safetyTags []stri
 	for a := range x.trustedUsed {
 		res.Trusted = append(res.Trusted, a)
 	}
+	for a := range x.usedKeys {
+		res.Used = append(res.Used, a)
+	}
+	sort.Strings(res.Used)
 	sort.Strings(res.Abstracted)
 	sort.Strings(res.Inlined)
 	sort.Strings(res.Trusted)
